@@ -321,7 +321,7 @@ fn execute(atoms: &Atoms, cfg: &Cfg, scn: &Scenario, cas: &std::path::Path, pref
                     } else {
                         cas
                     };
-                    let r = std::panic::AssertUnwindSafe(run_session(atoms, spec, cas, pool.clone(), &store2, explore, record, scn.family == "inject-conc", scn.family == "inject-persist", prefix, budget, obs_ref)).catch_unwind().await;
+                    let r = std::panic::AssertUnwindSafe(run_session(atoms, spec, cas, pool.clone(), &store2, explore, record, scn.family == "inject-conc" || scn.family == "inject-conc4", scn.family == "inject-persist", prefix, budget, obs_ref)).catch_unwind().await;
                     if let Err(p) = r {
                         obs_ref.panic = Some(format!("{} @ {}", vcore::util::panic_text(&p), vcore::util::last_panic_loc()));
                         break;
@@ -439,6 +439,7 @@ async fn run_session(atoms: &Atoms, spec: &SessionSpec, cas: &std::path::Path, p
     let ops = driver_ops(atoms, spec);
     let nfiles = spec.files.len();
     let concurrent = concurrent_mode && explore && nfiles >= 2;
+    let symmetric_files = concurrent && nfiles >= 4 && spec.files.iter().all(|f| f.pieces(atoms).len() == 1);
     // per-file queues for the concurrent mode (ops of one file stay in order; ops of different files may overlap)
     let mut queues: Vec<std::collections::VecDeque<DriverOp>> = (0..nfiles).map(|_| Default::default()).collect();
     for op in &ops {
@@ -516,6 +517,11 @@ async fn run_session(atoms: &Atoms, spec: &SessionSpec, cas: &std::path::Path, p
             if inflight.len() < 2 {
                 for f in 0..nfiles {
                     if !busy.contains(&f) && !queues[f].is_empty() {
+                        // symmetry reduction for interchangeable files (every file is one fresh atom fed in one piece):
+                        // a file is started only after every file before it has been started
+                        if symmetric_files && matches!(queues[f].front(), Some(DriverOp::Add(..))) && (0..f).any(|g| matches!(queues[g].front(), Some(DriverOp::Add(..)))) {
+                            continue;
+                        }
                         options.push((format!("issue next op of file{f}"), 3, f));
                     }
                 }
@@ -679,6 +685,10 @@ fn check(obs: &ExecObs) -> Vec<(String, String)> {
     }
     if let Some(h) = &obs.hang {
         v.push(("C16/hang".into(), h.clone()));
+        if obs.failures_injected == 0 {
+            // no store call failed and none is pending, yet a session call never returns: the files cannot round-trip
+            v.push(("C01/hang-under-interleaving".into(), h.clone()));
+        }
     }
     // (1) a shard is handed to the store only after every xorb its file records name was stored successfully
     for c in &obs.log {
@@ -776,6 +786,9 @@ fn scenarios(tier: Tier) -> Vec<Scenario> {
     // a finish that has to cut the session aggregate while the only upload permit is held by a pending mid-file
     // upload, and a file without any new chunk (empty) finishing in that window
     v.push(conc(vec![f(&[0, 1, 2], 0), f(&[3, 4], 0), f(&[], 0)]));
+    // four one-chunk files: with one chunk per xorb and one permit (I6) a finish waits for a permit in the middle of
+    // the session-level cut while other files complete
+    v.push(Scenario { family: "inject-conc4".into(), sessions: vec![SessionSpec::seq(vec![f(&[0], 0), f(&[1], 0), f(&[2], 0), f(&[3], 0)])] });
     // persist mode: after an operation of a file fails the driver abandons that file only and goes on with the
     // other files and with finalize (the public API does not prevent it); the ordering clause "a shard is handed
     // to the store only after every xorb its file records reference has been stored" must hold there too
@@ -840,6 +853,11 @@ fn configs(tier: Tier) -> Vec<Cfg> {
         max_uploads: Some(uploads),
     };
     let mut v = vec![base("I1-uploads1", 1, None), base("I2-uploads2", 2, None), base("I3-uploads2-shards", 2, Some(400))];
+    // one chunk per xorb and one upload permit: every finish but the first has to cut the session aggregate, and the
+    // cut has to wait whenever an earlier put is still pending (used with the four-file concurrent scenario only)
+    let mut one = base("I6-uploads1-chunks1", 1, None);
+    one.max_xorb_chunks = Some(1);
+    v.push(one);
     if tier == Tier::Thorough {
         v.push(base("I4-uploads1-shards", 1, Some(400)));
         v.push(base("I5-uploads3", 3, None));
@@ -1000,12 +1018,16 @@ fn main() {
     } else {
         for cfg in configs(args.tier) {
             for scn in scenarios(args.tier) {
-                if fault_free && (scn.sessions.last().map(|s| s.files.len()).unwrap_or(0) < 2 || scn.family == "inject-persist" || (args.tier == Tier::Quick && cfg.name != "I2-uploads2" && !(cfg.name == "I1-uploads1" && scn.family == "inject-conc"))) {
+                if fault_free && (scn.sessions.last().map(|s| s.files.len()).unwrap_or(0) < 2 || scn.family == "inject-persist" || (args.tier == Tier::Quick && cfg.name != "I2-uploads2" && !(cfg.name == "I1-uploads1" && scn.family == "inject-conc") && !cfg.name.starts_with("I6"))) {
                     continue;
                 }
                 // the three-file concurrent scenario is there for the fault-free interleaving checks; with injected
                 // failures (C16) and for C14x it runs in the thorough tier only
                 if !fault_free && args.tier == Tier::Quick && scn.family == "inject-conc" && scn.sessions.last().map(|s| s.files.len()).unwrap_or(0) >= 3 {
+                    continue;
+                }
+                // configuration I6 and the four-file scenario belong together, and to the fault-free interleaving checks
+                if (cfg.name.starts_with("I6")) != (scn.family == "inject-conc4") || (scn.family == "inject-conc4" && !fault_free) {
                     continue;
                 }
                 // C14x judges successful sessions only, so it needs no injected failure (and no persisting driver)
@@ -1052,6 +1074,7 @@ fn main() {
     run.assume("two drivers: the in-repo caller's (stops using the session at the first Err; the error-surfacing and reconstructibility clauses are judged there) and, for the inject-persist scenarios, one that abandons only the file whose operation failed and goes on to finalize (the shard-after-its-xorbs clause is judged there as well)");
     run.assume("single-threaded runtime: the only nondeterminism is the explorer's (which pending store call completes next, as success or failure, relative to the driver's operations); quiescence between choices = 40 consecutive yields without a harness-visible event, validated by re-running 1 in 16 executions");
     run.assume("intra-operation preemption of two cleaners is not explored at this layer");
+    run.assume("four-file concurrent scenario: the files are interchangeable (one fresh atom each, fed in one piece), so a file is started only after every file before it was started (symmetry reduction); the order of all later operations and releases is explored");
     run.all = all;
     run.finish(
         evaluations,
